@@ -455,7 +455,7 @@ func (st *State) checkEnsures(fr *Frame, results []SVal) {
 	if u.c.HasMods {
 		var goals []*Term
 		var parts []*Obligation
-		for _, p := range st.uncoveredHavocs(u.c.Modifies) {
+		for _, p := range st.uncoveredHavocs(append(append([]string(nil), u.c.Modifies...), u.c.Allocates...)) {
 			if strings.HasPrefix(p, "F:") || strings.HasPrefix(p, "B:") || strings.HasPrefix(p, "E:") {
 				continue // heap cells: checked precisely through the arrays this path read
 			}
@@ -1336,6 +1336,7 @@ func (e *Engine) modSetBlocks(st *State, fn *ssa.Function, blocks map[*ssa.Basic
 					if ct := e.dynContract(c); ct != nil {
 						if ct.HasMods {
 							pats = append(pats, ct.Modifies...)
+							pats = append(pats, ct.Allocates...)
 							continue
 						}
 						continue
@@ -1343,6 +1344,7 @@ func (e *Engine) modSetBlocks(st *State, fn *ssa.Function, blocks map[*ssa.Basic
 					if !c.IsInvoke() {
 						if ct, ok := e.specs.Contracts[dynCallKey(c)]; ok {
 							pats = append(pats, ct.Modifies...)
+							pats = append(pats, ct.Allocates...)
 							continue
 						}
 					}
@@ -1351,6 +1353,7 @@ func (e *Engine) modSetBlocks(st *State, fn *ssa.Function, blocks map[*ssa.Basic
 				key := fnKey(callee)
 				if ct, ok := e.specs.Contracts[key]; ok && !ct.Inline {
 					pats = append(pats, ct.Modifies...)
+					pats = append(pats, ct.Allocates...)
 					continue
 				}
 				if m, ok := e.entModset(callee); ok {
